@@ -1,15 +1,11 @@
 package main
 
-import "fmt"
+import (
+	"fmt"
+	"sort"
 
-// OracleFail is a property violation found on the implementation alone.
-type OracleFail struct {
-	Prop   string `json:"prop"`
-	CaseID string `json:"case"`
-	What   string `json:"what"`
-	Recipe string `json:"recipe"`
-	Detail string `json:"detail"`
-}
+	"github.com/cockroachdb/errors/errbase"
+)
 
 func names(ns ...string) []Obs {
 	var out []Obs
@@ -19,28 +15,687 @@ func names(ns ...string) []Obs {
 	return out
 }
 
-func propCases(prop string, g *Gen, n int) ([]*Case, []OracleFail) {
-	var cases []*Case
-	var fails []OracleFail
-	add := func(r *R, refs []*Ref, obs []Obs) {
-		cases = append(cases, &Case{ID: fmt.Sprintf("%s-%d", prop, len(cases)), R: r, Refs: refs, Obs: obs})
+// every type key that has a decoder in the current process
+func decoderKeys() []string {
+	_, _, ld, wd, md := errbase.VerifRegistryKeys()
+	m := map[string]bool{}
+	for _, l := range [][]string{ld, wd, md} {
+		for _, k := range l {
+			m[k] = true
+		}
 	}
+	out := make([]string, 0, len(m))
+	for k := range m {
+		out = append(out, k)
+	}
+	sort.Strings(out)
+	return out
+}
+
+// a process description: the decoder keys it does not know
+func (g *Gen) proc(kind int) []string {
+	keys := decoderKeys()
+	switch kind {
+	case 0: // knows everything
+		return []string{}
+	case 1: // knows nothing
+		return keys
+	default:
+		out := []string{}
+		p := 20 + g.r.intn(60)
+		for _, k := range keys {
+			if g.r.chance(p) {
+				out = append(out, k)
+			}
+		}
+		return out
+	}
+}
+
+func (g *Gen) hopSeq(n int, lastKnowing bool) [][]string {
+	var out [][]string
+	for i := 0; i < n; i++ {
+		out = append(out, g.proc(g.r.intn(3)))
+	}
+	if lastKnowing {
+		out = append(out, []string{})
+	}
+	return out
+}
+
+func sentRefs() []*Ref {
+	var out []*Ref
+	for i := 0; i < 10; i++ {
+		out = append(out, &Ref{Kind: "sent", N: int64(i)})
+	}
+	return out
+}
+
+// paths to (at most max) nodes of the visible tree of the error a recipe builds
+// are not known statically; the harness uses recipe-level sub-terms instead:
+// every sub-recipe reachable through the first error argument / join members.
+func subRecipes(r *R, out *[]*R, max int) {
+	if len(*out) >= max {
+		return
+	}
+	*out = append(*out, r)
+	for _, k := range r.Kids {
+		subRecipes(k, out, max)
+	}
+	for _, p := range r.Fmt {
+		if p.R != nil {
+			subRecipes(p.R, out, max)
+		}
+	}
+}
+
+// perturbed copy: one message / one type / one domain / one extra or missing layer changed
+func (g *Gen) perturb(r *R) *R {
+	c := cloneR(r)
+	var nodes []*R
+	subRecipes(c, &nodes, 64)
+	n := nodes[g.r.intn(len(nodes))]
+	switch g.r.intn(5) {
+	case 0: // message
+		if len(n.S) > 0 {
+			n.S[len(n.S)-1] = n.S[len(n.S)-1] + "~"
+			return c
+		}
+	case 1: // type
+		switch n.Op {
+		case "stdnew":
+			n.Op = "pkgnew"
+			return c
+		case "new":
+			n.Op = "stdnew"
+			return c
+		case "hint":
+			n.Op = "detail"
+			return c
+		case "wrap":
+			n.Op = "withmessage"
+			return c
+		}
+	case 2: // domain
+		if n.Op == "domain" {
+			n.S[0] = n.S[0] + "x"
+			return c
+		}
+	case 3: // extra layer
+		return &R{Op: "hint", Kids: []*R{c}, S: []string{"extra"}}
+	default: // missing layer
+		if len(c.Kids) == 1 && len(c.Fmt) == 0 {
+			return c.Kids[0]
+		}
+	}
+	return &R{Op: "detail", Kids: []*R{c}, S: []string{"perturbed"}}
+}
+
+func cloneR(r *R) *R {
+	if r == nil {
+		return nil
+	}
+	c := &R{Op: r.Op, S: append([]string{}, r.S...), I: append([]int64{}, r.I...), Tags: append([]TagKV{}, r.Tags...),
+		Strs: append([]string{}, r.Strs...)}
+	for _, k := range r.Kids {
+		c.Kids = append(c.Kids, cloneR(k))
+	}
+	for _, p := range r.Fmt {
+		q := p
+		q.R = cloneR(p.R)
+		c.Fmt = append(c.Fmt, q)
+	}
+	for _, p := range r.Procs {
+		c.Procs = append(c.Procs, append([]string{}, p...))
+	}
+	return c
+}
+
+// references used by the identity properties: sentinels, nil, sub-recipes of e
+// rebuilt independently (equal), perturbed copies (near-equal), paths into e
+func (g *Gen) identityRefs(r *R, nsub int) []*Ref {
+	refs := sentRefs()
+	refs = append(refs, &Ref{Kind: "nil"})
+	refs = append(refs, &Ref{Kind: "path", Path: []Sx{}})
+	refs = append(refs, &Ref{Kind: "path", Path: []Sx{Sym("c")}})
+	refs = append(refs, &Ref{Kind: "path", Path: []Sx{Sym("c"), Sym("c")}})
+	refs = append(refs, &Ref{Kind: "path", Path: []Sx{L(Sym("m"), N(0))}})
+	refs = append(refs, &Ref{Kind: "path", Path: []Sx{Sym("c"), L(Sym("m"), N(1))}})
+	var subs []*R
+	subRecipes(r, &subs, 40)
+	for i := 0; i < nsub && len(subs) > 0; i++ {
+		s := subs[g.r.intn(len(subs))]
+		refs = append(refs, &Ref{Kind: "recipe", R: cloneR(s)})
+		refs = append(refs, &Ref{Kind: "recipe", R: g.perturb(s)})
+	}
+	return refs
+}
+
+func isObs(n int) []Obs {
+	var out []Obs
+	for i := 0; i < n; i++ {
+		out = append(out, Obs{Name: "is", Refs: []int{i}})
+	}
+	return out
+}
+
+func asObs() []Obs {
+	var out []Obs
+	for _, t := range asTypeTargets {
+		out = append(out, Obs{Name: "as", Target: [2]string{"type", t}})
+	}
+	for _, t := range asIfaceTargets {
+		out = append(out, Obs{Name: "as", Target: [2]string{"iface", t}})
+	}
+	return out
+}
+
+// rich hidden payload for C07: carries everything an accessor could pick up
+func (g *Gen) richHidden() *R {
+	r := &R{Op: "sentinel", I: []int64{int64(g.r.intn(10))}}
+	if g.r.chance(40) {
+		r = &R{Op: "errno", I: []int64{13}}
+	}
+	if g.r.chance(30) {
+		r = &R{Op: "uleaf", S: []string{"hinter", "hidden leaf"}, I: []int64{1}, Strs: []string{"hidden hint L", "hidden detail L"}}
+	}
+	if g.r.chance(30) {
+		r = &R{Op: "unimpl", S: []string{"http://hidden/issue", "hidden-unimpl", "hidden unimplemented"}}
+	}
+	wr := []*R{
+		{Op: "hint", S: []string{"hidden hint"}},
+		{Op: "detail", S: []string{"hidden detail"}},
+		{Op: "domain", S: []string{"error domain: \"hidden\""}},
+		{Op: "http", I: []int64{418}},
+		{Op: "grpc", I: []int64{7}},
+		{Op: "telemetry", Strs: []string{"hidden.key"}},
+		{Op: "assert"},
+		{Op: "issuelink", S: []string{"http://hidden/link", "hidden link"}},
+		{Op: "tags", Tags: []TagKV{{K: "hiddentag", Kind: "str", V: "hv"}}},
+		{Op: "patherror", S: []string{"open", "/hidden/path"}},
+		{Op: "uwrap", S: []string{"safedet", "hidden uw"}, Strs: []string{"hidden safe"}},
+	}
+	for _, w := range wr {
+		if g.r.chance(55) {
+			c := cloneR(w)
+			c.Kids = []*R{r}
+			r = c
+		}
+	}
+	return r
+}
+
+// swapHidden returns a copy of r in which every hidden payload (behind a
+// barrier, in a secondary error) is replaced by an unrelated rich one, keeping
+// the barrier's own message.  ok=false when nothing was swapped.
+func (g *Gen) swapHidden(r *R) (out *R, swapped bool) {
+	c := &R{Op: r.Op, S: append([]string{}, r.S...), I: append([]int64{}, r.I...), Tags: append([]TagKV{}, r.Tags...),
+		Strs: append([]string{}, r.Strs...), Fmt: r.Fmt, Procs: r.Procs}
+	kid := func(i int) *R {
+		k, s := g.swapHidden(r.Kids[i])
+		swapped = swapped || s
+		return k
+	}
+	keepText := func(x *R) (string, bool) {
+		if hasPlusV(x) {
+			return "", false
+		}
+		t, isNil := specText(x)
+		return t, !isNil
+	}
+	switch r.Op {
+	case "handled", "handleassert", "handledindomain":
+		if t, ok := keepText(r.Kids[0]); ok {
+			b := &R{Op: "handledmsg", Kids: []*R{g.richHidden()}, S: []string{t}}
+			swapped = true
+			switch r.Op {
+			case "handled":
+				return b, true
+			case "handledindomain":
+				return &R{Op: "domain", Kids: []*R{b}, S: []string{r.S[0]}}, true
+			default:
+				return &R{Op: "assert", Kids: []*R{{Op: "withstack", Kids: []*R{b}}}}, true
+			}
+		}
+		c.Kids = []*R{r.Kids[0]}
+		return c, false
+	case "handledmsg", "handledindomainmsg", "handledmsgf":
+		if _, isNil := specText(r.Kids[0]); !isNil {
+			c.Kids = []*R{g.richHidden()}
+			return c, true
+		}
+		c.Kids = []*R{r.Kids[0]}
+		return c, false
+	case "newassertwrapped":
+		if t, ok := keepText(r.Kids[0]); ok {
+			b := &R{Op: "handledmsg", Kids: []*R{g.richHidden()}, S: []string{t}}
+			return &R{Op: "assert", Kids: []*R{{Op: "wrapf", Kids: []*R{b}, Fmt: r.Fmt}}}, true
+		}
+		c.Kids = []*R{r.Kids[0]}
+		return c, false
+	case "secondary":
+		_, n0 := specText(r.Kids[0])
+		_, n1 := specText(r.Kids[1])
+		if !n0 && !n1 {
+			c.Kids = []*R{kid(0), g.richHidden()}
+			return c, true
+		}
+		c.Kids = []*R{kid(0), r.Kids[1]}
+		return c, swapped
+	case "combine":
+		_, n0 := specText(r.Kids[0])
+		_, n1 := specText(r.Kids[1])
+		if !n0 && !n1 {
+			c.Kids = []*R{kid(0), g.richHidden()}
+			return c, true
+		}
+		c.Kids = []*R{kid(0), kid(1)}
+		return c, swapped
+	case "mark":
+		c.Kids = []*R{kid(0), r.Kids[1]}
+		return c, swapped
+	}
+	for i := range r.Kids {
+		c.Kids = append(c.Kids, kid(i))
+	}
+	return c, swapped
+}
+
+func (g *Gen) treeWithHidden(depth int) *R {
+	for {
+		r := g.Tree(depth)
+		ops := map[string]int{}
+		r.CountOps(ops)
+		for _, k := range []string{"handled", "handledmsg", "handledmsgf", "handledindomain", "handledindomainmsg", "handleassert", "newassertwrapped", "secondary", "combine", "mark"} {
+			if ops["op:"+k] > 0 {
+				return r
+			}
+		}
+		// put one on top
+		ks := []string{"handled", "handledmsg", "secondary", "handledindomain", "handleassert", "combine"}
+		k := g.r.pick(ks)
+		switch k {
+		case "handledmsg":
+			return g.Wrapper(&R{Op: k, Kids: []*R{r}, S: []string{g.sU()}}, 1)
+		case "secondary", "combine":
+			return g.Wrapper(&R{Op: k, Kids: []*R{g.Tree(2), r}}, 1)
+		case "handledindomain":
+			return g.Wrapper(&R{Op: k, Kids: []*R{r}, S: []string{"error domain: \"d\""}}, 1)
+		default:
+			return g.Wrapper(&R{Op: k, Kids: []*R{r}}, 1)
+		}
+	}
+}
+
+func propCases(prop string, g *Gen, n int) []*Case {
+	var cases []*Case
+	add := func(c *Case) *Case {
+		c.ID = fmt.Sprintf("%s-%d", prop, len(cases))
+		c.Prop = prop
+		c.UTok, c.STok = g.UTokens, g.STokens
+		c.Hostile = g.Hostile
+		g.ResetTokens()
+		cases = append(cases, c)
+		return c
+	}
+	knowing1 := [][]string{{}}
+	knowing2 := [][]string{{}, {}}
 	switch prop {
 	case "SMOKE", "SMOKEH":
 		g.Hostile = prop == "SMOKEH"
 		obs := names("nilness", "text", "shape", "root", "hints", "details", "flathints", "flatdetails", "links",
-			"keys", "domain", "tags", "flags", "codes", "os", "safedetails", "enc", "fmt-v", "fmt+v", "red-v", "red+v")
-		obs = append(obs, Obs{Name: "hop", Procs: [][]string{{}}, Sub: names("text", "shape", "enc", "fmt+v", "red+v", "safedetails")})
+			"keys", "domain", "tags", "flags", "codes", "os", "safedetails", "enc", "fmt-v", "fmt+v", "red-v", "red+v",
+			"stacks", "source", "report")
+		obs = append(obs, Obs{Name: "hop", Procs: knowing1, Sub: names("text", "shape", "enc", "fmt+v", "red+v", "safedetails", "stacks", "source", "report")})
 		for i := 0; i < n; i++ {
-			add(g.Tree(1+g.r.intn(5)), nil, obs)
+			add(&Case{R: g.Tree(1 + g.r.intn(5)), Obs: obs})
+		}
+	case "C01":
+		obs := names("shape", "enc")
+		obs = append(obs, Obs{Name: "hop", Procs: knowing1, Sub: names("shape", "enc")})
+		obs = append(obs, Obs{Name: "hop", Procs: knowing2, Sub: names("shape", "enc")})
+		for _, r := range enumPairs(g) {
+			add(&Case{R: r, Obs: obs, Oracles: []string{"C01"}})
+		}
+		for i := 0; i < n; i++ {
+			add(&Case{R: g.Tree(1 + g.r.intn(6)), Obs: obs, Oracles: []string{"C01"}})
+		}
+	case "C02":
+		for i := 0; i < n; i++ {
+			r := g.Tree(1 + g.r.intn(5))
+			refs := g.identityRefs(r, 3)
+			hops := [][][]string{knowing1, g.hopSeq(1+g.r.intn(2), true), g.hopSeq(1+g.r.intn(2), false)}
+			obs := isObs(len(refs))
+			for _, h := range hops {
+				obs = append(obs, Obs{Name: "hop", Procs: h, Sub: isObs(len(refs))})
+			}
+			add(&Case{R: r, Refs: refs, Obs: obs, Oracles: []string{"C02"}, Hops: hops})
+		}
+	case "C03":
+		g.Hostile, g.Tokens = true, true
+		obs := names("red-v", "red+v", "safedetails", "enc", "report")
+		for i := 0; i < n; i++ {
+			r := g.Tree(1 + g.r.intn(5))
+			hops := [][][]string{knowing1, knowing2, g.hopSeq(1, false), {g.proc(1)}}
+			o := append([]Obs{}, obs...)
+			o = append(o, Obs{Name: "hop", Procs: hops[2], Sub: names("red+v", "safedetails", "enc", "report")})
+			o = append(o, Obs{Name: "hop", Procs: knowing1, Sub: names("red+v", "safedetails", "report")})
+			add(&Case{R: r, Obs: o, Oracles: []string{"C03"}, Hops: hops})
+		}
+	case "C04":
+		for i := 0; i < n; i++ {
+			r := g.Tree(1 + g.r.intn(5))
+			hops := [][][]string{{g.proc(1)}, {g.proc(2)}, {g.proc(2), g.proc(1)}, {g.proc(1), g.proc(2), g.proc(2)}}
+			var obs []Obs
+			for _, h := range hops[:3] {
+				obs = append(obs, Obs{Name: "hop", Procs: h, Sub: names("shape", "enc", "safedetails")})
+				hk := append(append([][]string{}, h...), []string{})
+				obs = append(obs, Obs{Name: "hop", Procs: hk, Sub: names("shape", "enc", "fmt+v", "hints", "details", "keys", "domain", "tags", "flags", "codes", "links")})
+			}
+			add(&Case{R: r, Refs: sentRefs(), Obs: obs, Oracles: []string{"C04"}, Hops: hops})
+		}
+	case "C06":
+		g.Hostile = true
+		obs := names("red-v", "red+v")
+		for i := 0; i < n; i++ {
+			r := g.Tree(1 + g.r.intn(5))
+			hops := [][][]string{knowing1, {g.proc(1)}, {g.proc(2)}}
+			o := append([]Obs{}, obs...)
+			for _, h := range hops {
+				o = append(o, Obs{Name: "hop", Procs: h, Sub: names("red-v", "red+v")})
+			}
+			add(&Case{R: r, Obs: o, Oracles: []string{"C06wf"}, Hops: hops})
+		}
+	case "C06R":
+		// regular strings: congruence with the plain rendering, refusal of unsupported verbs
+		g.Tokens = true
+		obs := names("red-v", "red+v", "fmt-v", "fmt+v")
+		for i := 0; i < n; i++ {
+			r := g.Tree(1 + g.r.intn(5))
+			hops := [][][]string{knowing1, {g.proc(1)}}
+			o := append([]Obs{}, obs...)
+			for _, h := range hops {
+				o = append(o, Obs{Name: "hop", Procs: h, Sub: names("red+v", "fmt+v")})
+			}
+			add(&Case{R: r, Obs: o, Oracles: []string{"C06wf", "C06congr"}, Hops: hops})
+		}
+	case "C07":
+		g.NoPlusV = true
+		for len(cases) < n {
+			r := g.treeWithHidden(1 + g.r.intn(4))
+			v, ok := g.swapHidden(r)
+			if !ok {
+				continue
+			}
+			refs := []*Ref{{Kind: "recipe", R: v}}
+			refs = append(refs, sentRefs()...)
+			var subs []*R
+			subRecipes(r, &subs, 30)
+			for k := 0; k < 4; k++ {
+				refs = append(refs, &Ref{Kind: "recipe", R: cloneR(subs[g.r.intn(len(subs))])})
+			}
+			hops := [][][]string{knowing1, g.hopSeq(1, true), {g.proc(1)}}
+			obs := names("root", "hints", "details", "links", "keys", "domain", "tags", "flags", "codes", "os", "text")
+			obs = append(obs, isObs(len(refs))[1:]...)
+			obs = append(obs, asObs()...)
+			obs = append(obs, Obs{Name: "hop", Procs: knowing1, Sub: append(names("root", "hints", "details", "keys", "domain", "flags", "codes", "os", "text"), isObs(len(refs))[1:]...)})
+			add(&Case{R: r, Refs: refs, Obs: obs, Oracles: []string{"C07"}, Hops: hops})
+		}
+	case "C07M":
+		// Mark(e, ref): the reference contributes nothing but its mark
+		g.NoPlusV = true
+		for i := 0; i < n; i++ {
+			e := g.Tree(1 + g.r.intn(3))
+			g.inRef++
+			ref := g.richHidden()
+			if g.r.chance(50) {
+				ref = g.Wrapper(ref, 2)
+			}
+			g.inRef--
+			if _, isNil := specText(e); isNil {
+				continue
+			}
+			if _, isNil := specText(ref); isNil {
+				continue
+			}
+			r := &R{Op: "mark", Kids: []*R{e, ref}}
+			refs := []*Ref{{Kind: "recipe", R: cloneR(e)}}
+			obs := names("root", "hints", "details", "links", "keys", "domain", "tags", "flags", "codes", "os", "text")
+			obs = append(obs, asObs()...)
+			add(&Case{R: r, Refs: refs, Obs: obs, Oracles: []string{"C07mark"}, Hops: [][][]string{knowing1, {g.proc(1)}}})
+		}
+	case "C08":
+		for i := 0; i < n; i++ {
+			r := g.Tree(1 + g.r.intn(5))
+			if g.r.chance(4) {
+				r = &R{Op: "nil"}
+			}
+			refs := g.identityRefs(r, 4)
+			obs := isObs(len(refs))
+			for k := 0; k+2 < len(refs); k += 3 {
+				obs = append(obs, Obs{Name: "isany", Refs: []int{k, k + 1, k + 2}})
+			}
+			add(&Case{R: r, Refs: refs, Obs: obs, Oracles: []string{"C08"}})
+		}
+	case "C09":
+		obs := names("text", "fmt-v", "fmt+v")
+		obs = append(obs, Obs{Name: "hop", Procs: knowing1, Sub: names("text", "fmt-v", "fmt+v")})
+		for _, r := range enumPairs(g) {
+			add(&Case{R: r, Obs: obs, Oracles: []string{"C09"}, Hops: [][][]string{knowing1}})
+		}
+		for i := 0; i < n; i++ {
+			add(&Case{R: g.Tree(1 + g.r.intn(5)), Obs: obs, Oracles: []string{"C09"}, Hops: [][][]string{knowing1}})
+		}
+	case "C10":
+		obs := names("nilness", "shape", "root")
+		// every exported constructor over nil
+		for _, r := range nilCases(g) {
+			add(&Case{R: r, Obs: obs, Oracles: []string{"C10"}})
+		}
+		for _, r := range enumPairs(g) {
+			add(&Case{R: r, Obs: obs, Oracles: []string{"C10"}})
+		}
+		for i := 0; i < n; i++ {
+			r := g.Tree(1 + g.r.intn(6))
+			var refs []*Ref
+			o := append([]Obs{}, obs...)
+			if annotOps[r.Op] {
+				refs = append(refs, &Ref{Kind: "recipe", R: cloneR(r.Kids[0])})
+				refs = append(refs, sentRefs()...)
+				refs = append(refs, &Ref{Kind: "path", Path: []Sx{Sym("c")}})
+				o = append(o, isObs(len(refs))...)
+				o = append(o, asObs()...)
+			}
+			add(&Case{R: r, Refs: refs, Obs: o, Oracles: []string{"C10"}})
+		}
+	case "C11":
+		g.NoUserAnnot = true
+		sub := names("hints", "details", "links", "keys", "domain", "tags", "flags", "codes", "os", "safedetails", "stacks", "source")
+		obs := append([]Obs{}, sub...)
+		obs = append(obs, Obs{Name: "hop", Procs: knowing1, Sub: sub}, Obs{Name: "hop", Procs: knowing2, Sub: sub})
+		for _, r := range enumPairs(g) {
+			add(&Case{R: r, Obs: obs, Oracles: []string{"C11"}})
+		}
+		for i := 0; i < n; i++ {
+			add(&Case{R: g.Tree(1 + g.r.intn(5)), Obs: obs, Oracles: []string{"C11"}})
+		}
+	case "C12":
+		g.Tokens = true
+		obs := names("report", "safedetails")
+		obs = append(obs, Obs{Name: "hop", Procs: knowing1, Sub: names("report", "safedetails")})
+		for i := 0; i < n; i++ {
+			add(&Case{R: g.Tree(1 + g.r.intn(5)), Obs: obs, Oracles: []string{"C12"}, Hops: [][][]string{knowing1, knowing2}})
+		}
+	case "C13":
+		for i := 0; i < n; i++ {
+			var r *R
+			switch g.r.intn(3) {
+			case 0:
+				r = g.Multi(1 + g.r.intn(4))
+			case 1:
+				r = g.Wrapper(g.Multi(1+g.r.intn(3)), 1)
+			default:
+				r = g.Wrapper(g.Wrapper(g.Multi(1+g.r.intn(3)), 1), 1)
+			}
+			refs := g.identityRefs(r, 3)
+			hops := [][][]string{knowing1, {g.proc(1)}, g.hopSeq(2, false)}
+			obs := names("shape", "fmt+v")
+			obs = append(obs, isObs(len(refs))...)
+			obs = append(obs, asObs()...)
+			for _, h := range hops {
+				obs = append(obs, Obs{Name: "hop", Procs: h, Sub: names("shape")})
+			}
+			orc := []string{"C13"}
+			if r.Op == "join" || r.Op == "stdjoin" {
+				orc = append(orc, "C13join")
+			}
+			add(&Case{R: r, Refs: refs, Obs: obs, Oracles: orc, Hops: hops})
+		}
+	case "C14":
+		for i := 0; i < n; i++ {
+			r := g.Tree(1 + g.r.intn(5))
+			refs := g.identityRefs(r, 3)
+			var obs []Obs
+			for k := range refs {
+				obs = append(obs, Obs{Name: "is", Refs: []int{k}}, Obs{Name: "std-is", Refs: []int{k}})
+			}
+			for _, t := range asTypeTargets {
+				obs = append(obs, Obs{Name: "as", Target: [2]string{"type", t}}, Obs{Name: "std-as", Target: [2]string{"type", t}})
+			}
+			obs = append(obs, names("std-unwrap", "pkg-cause", "root")...)
+			add(&Case{R: r, Refs: refs, Obs: obs, Oracles: []string{"C14"}})
+		}
+	case "C15":
+		obs := names("report")
+		obs = append(obs, Obs{Name: "hop", Procs: knowing1, Sub: names("report")})
+		for _, r := range enumPairs(g) {
+			add(&Case{R: r, Obs: obs, Oracles: []string{"C15"}, Hops: [][][]string{knowing1}})
+		}
+		add(&Case{R: &R{Op: "nil"}, Obs: obs, Oracles: []string{"C15"}})
+		for i := 0; i < n; i++ {
+			add(&Case{R: g.Tree(1 + g.r.intn(5)), Obs: obs, Oracles: []string{"C15"}, Hops: [][][]string{knowing1}})
 		}
 	case "C19":
 		obs := names("hints", "details", "flathints", "flatdetails", "links", "keys", "tags")
 		for i := 0; i < n; i++ {
-			add(g.Chain(g.r.intn(12)), nil, obs)
+			add(&Case{R: g.Chain(g.r.intn(12)), Obs: obs, Oracles: []string{"C19"}})
 		}
 	default:
 		panic("unknown property " + prop)
 	}
-	return cases, fails
+	return cases
+}
+
+// every wrapper / multi kind over every leaf kind, with fixed strings: the
+// enumerative part of the corpus (each kind's local behaviour)
+func enumPairs(g *Gen) []*R {
+	save := *g.r
+	g.r.s = 0x5eed
+	defer func() { *g.r = save }()
+	var leaves []*R
+	for k := 0; k < 14; k++ {
+		// one leaf per generator branch
+		for tries := 0; tries < 40; tries++ {
+			l := g.Leaf(1)
+			dup := false
+			for _, x := range leaves {
+				if x.Op == l.Op && (l.Op != "uleaf" || x.S[0] == l.S[0]) && (l.Op != "sentinel" || x.I[0] == l.I[0]) {
+					dup = true
+				}
+			}
+			if !dup {
+				leaves = append(leaves, l)
+				break
+			}
+		}
+	}
+	var out []*R
+	seen := map[string]bool{}
+	for _, l := range leaves {
+		out = append(out, l)
+		for tries := 0; tries < 260; tries++ {
+			w := g.Wrapper(cloneR(l), 1)
+			key := w.Op
+			if w.Op == "uwrap" {
+				key += w.S[0]
+			}
+			key += "/" + l.Op
+			if l.Op == "uleaf" {
+				key += l.S[0]
+			}
+			if seen[key] {
+				continue
+			}
+			seen[key] = true
+			out = append(out, w)
+		}
+	}
+	// multi kinds over two leaves
+	for i := 0; i+1 < len(leaves); i += 2 {
+		for _, op := range []string{"join", "stdjoin"} {
+			out = append(out, &R{Op: op, Kids: []*R{cloneR(leaves[i]), cloneR(leaves[i+1])}})
+		}
+		out = append(out, &R{Op: "fmterrorf", Fmt: []FP{{Kind: "lit", S: "multi "}, {Kind: "err", Verb: "w", R: cloneR(leaves[i])},
+			{Kind: "lit", S: " and "}, {Kind: "err", Verb: "w", R: cloneR(leaves[i+1])}}})
+	}
+	return out
+}
+
+// every exported constructor applied to a nil error (and nil in each position)
+func nilCases(g *Gen) []*R {
+	nilR := func() *R { return &R{Op: "nil"} }
+	leaf := func() *R { return &R{Op: "new", S: []string{"x"}} }
+	f := []FP{{Kind: "lit", S: "f "}, {Kind: "str", Verb: "s", S: "a"}}
+	out := []*R{
+		{Op: "wrap", Kids: []*R{nilR()}, S: []string{"m"}},
+		{Op: "wrap", Kids: []*R{nilR()}, S: []string{""}},
+		{Op: "wrapf", Kids: []*R{nilR()}, Fmt: f},
+		{Op: "withmessage", Kids: []*R{nilR()}, S: []string{"m"}},
+		{Op: "withmessagef", Kids: []*R{nilR()}, Fmt: f},
+		{Op: "withstack", Kids: []*R{nilR()}},
+		{Op: "hint", Kids: []*R{nilR()}, S: []string{"h"}},
+		{Op: "detail", Kids: []*R{nilR()}, S: []string{"d"}},
+		{Op: "issuelink", Kids: []*R{nilR()}, S: []string{"u", "d"}},
+		{Op: "telemetry", Kids: []*R{nilR()}, Strs: []string{"k"}},
+		{Op: "domain", Kids: []*R{nilR()}, S: []string{"error domain: \"d\""}},
+		{Op: "tags", Kids: []*R{nilR()}, Tags: []TagKV{{K: "k", Kind: "str", V: "v"}}},
+		{Op: "assert", Kids: []*R{nilR()}},
+		{Op: "mark", Kids: []*R{nilR(), leaf()}},
+		{Op: "safedetails", Kids: []*R{nilR()}, Fmt: f},
+		{Op: "http", Kids: []*R{nilR()}, I: []int64{404}},
+		{Op: "grpc", Kids: []*R{nilR()}, I: []int64{5}},
+		{Op: "secondary", Kids: []*R{nilR(), leaf()}},
+		{Op: "secondary", Kids: []*R{leaf(), nilR()}},
+		{Op: "secondary", Kids: []*R{nilR(), nilR()}},
+		{Op: "combine", Kids: []*R{nilR(), leaf()}},
+		{Op: "combine", Kids: []*R{leaf(), nilR()}},
+		{Op: "combine", Kids: []*R{nilR(), nilR()}},
+		{Op: "combine", Kids: []*R{leaf(), leaf()}},
+		{Op: "handled", Kids: []*R{nilR()}},
+		{Op: "handledmsg", Kids: []*R{nilR()}, S: []string{"m"}},
+		{Op: "handledmsgf", Kids: []*R{nilR()}, Fmt: f},
+		{Op: "handledindomain", Kids: []*R{nilR()}, S: []string{"error domain: \"d\""}},
+		{Op: "handledindomainmsg", Kids: []*R{nilR()}, S: []string{"error domain: \"d\"", "m"}},
+		{Op: "handleassert", Kids: []*R{nilR()}},
+		{Op: "newassertwrapped", Kids: []*R{nilR()}, Fmt: f},
+		{Op: "join", Kids: []*R{}},
+		{Op: "join", Kids: []*R{nilR()}},
+		{Op: "join", Kids: []*R{nilR(), nilR()}},
+		{Op: "join", Kids: []*R{nilR(), leaf(), nilR()}},
+		{Op: "join", Kids: []*R{leaf(), leaf()}},
+		{Op: "stdjoin", Kids: []*R{nilR(), nilR()}},
+		{Op: "pkgmsg", Kids: []*R{nilR()}, S: []string{"m"}},
+		{Op: "pkgstack", Kids: []*R{nilR()}},
+		{Op: "transfer", Kids: []*R{nilR()}, Procs: [][]string{{}}},
+		// leaf constructors are never nil
+		{Op: "new", S: []string{""}},
+		{Op: "new", S: []string{"x"}},
+		{Op: "newf", Fmt: []FP{{Kind: "lit", S: ""}}},
+		{Op: "newf", Fmt: f},
+		{Op: "newf", Fmt: []FP{{Kind: "lit", S: "w "}, {Kind: "err", Verb: "w", R: nilR()}}},
+		{Op: "assertf", Fmt: f},
+		{Op: "unimpl", S: []string{"", "", "m"}},
+		{Op: "stdnew", S: []string{"x"}},
+	}
+	return out
 }
